@@ -78,7 +78,7 @@ fn act_name(a: &ActD) -> String {
         ActD::Irq { declared, tries } => format!(
             "irq{}[{}]",
             if *declared { "!x" } else { "" },
-            tries.iter().map(|t| t.iter().map(|(k, v)| format!("{k}={v}")).collect::<Vec<_>>().join(",")).collect::<Vec<_>>().join(" then ")
+            tries.iter().map(|t| t.iter().map(|(k, v)| if k.starts_with('@') { k[1..].to_string() } else { format!("{k}={v}") }).collect::<Vec<_>>().join(",")).collect::<Vec<_>>().join(" then ")
         ),
         ActD::Msg => "read".into(),
         ActD::MsgIf(k, c) => format!("if({}>={c})", k.name()),
@@ -139,7 +139,8 @@ impl Prog {
     }
     pub fn yml(&self, mid: &str) -> String {
         let o = self.offset;
-        let mut s = format!("id: {mid}\ninputs:\n  x: {}\n  y: {}\noutputs:\n  x:\n  y:\n", o, o);
+        // `message` (like `ecode` and `to`, a name some actions use for themselves) is an ordinary declared variable here
+        let mut s = format!("id: {mid}\ninputs:\n  x: {}\n  y: {}\n  message: {}\noutputs:\n  x:\n  y:\n", o, o, o);
         if !self.branches {
             s += &format!("steps:\n  - id: s1\n    inputs:\n      z: {o}\n");
             if !self.s1.is_empty() {
@@ -191,6 +192,7 @@ pub struct Ref {
     pub x: i64,
     pub y: i64,
     pub z: i64,
+    pub message: i64,
     /// acts that may hold a private key in their own data: (idx, key)
     pub private_holders: Vec<(usize, String)>,
 }
@@ -200,6 +202,7 @@ pub fn reference(p: &Prog) -> Ref {
     let mut x = p.start_x.map(|v| v + o).unwrap_or(o);
     let mut y = o;
     let mut z = o;
+    let mut message = o;
     let mut obs = vec![];
     let mut holders = vec![];
     let mut all: Vec<(ActD, bool)> = vec![];
@@ -215,6 +218,7 @@ pub fn reference(p: &Prog) -> Ref {
     }
     for (idx, (a, z_scope)) in all.iter().enumerate() {
         let mut write = |k: &str, v: i64, x: &mut i64, y: &mut i64, z: &mut i64| match k {
+            "message" => message = v,
             "x" => *x = v,
             "y" => *y = v,
             "z" if *z_scope => *z = v,
@@ -260,7 +264,8 @@ pub fn reference(p: &Prog) -> Ref {
                     obs.push(Obs::Answer { idx, n, ok });
                     if ok {
                         for (k, c) in t {
-                            if *declared && *k != "x" {
+                            // "@submit" is not an option: it makes the client answer with submit
+                            if k.starts_with('@') || (*declared && *k != "x") {
                                 continue;
                             }
                             write(k, c + o, &mut x, &mut y, &mut z);
@@ -302,6 +307,7 @@ pub fn reference(p: &Prog) -> Ref {
         x,
         y,
         z,
+        message,
         private_holders: holders,
     }
 }
@@ -436,13 +442,16 @@ fn judge(sess: &Session, trace: &[Tr], pid: &str, p: &Prog, answers: &[(usize, u
             let Some(m) = data.as_object() else { continue };
             if t.tid == "$" {
                 let keys: Vec<&str> = m.keys().map(|s| s.as_str()).filter(|k| !k.starts_with('$')).collect();
-                let mut want = vec!["data", "pid", "x", "y"];
+                let mut want = vec!["data", "message", "pid", "x", "y"];
                 want.sort();
                 if keys != want {
                     push("root-data/keys".into(), format!("the root task of {pid} holds the keys {keys:?}, expected {want:?}"));
                 }
-                if m.get("x") != Some(&json!(r.x)) || m.get("y") != Some(&json!(r.y)) {
-                    push("root-data/values".into(), format!("the root task of {pid} holds x={:?} y={:?}, expected {} {}", m.get("x"), m.get("y"), r.x, r.y));
+                if m.get("x") != Some(&json!(r.x)) || m.get("y") != Some(&json!(r.y)) || m.get("message") != Some(&json!(r.message)) {
+                    push(
+                        "root-data/values".into(),
+                        format!("the root task of {pid} holds x={:?} y={:?} message={:?}, expected {} {} {}", m.get("x"), m.get("y"), m.get("message"), r.x, r.y, r.message),
+                    );
                 }
             }
             if t.nid == "s1" && m.get("z") != Some(&json!(r.z)) {
@@ -558,11 +567,16 @@ pub fn run_progs(ch: &mut Chooser, progs: &[Prog], want_log: bool) -> RunObs {
             let ActD::Irq { tries, .. } = all[idx] else { unreachable!() };
             let nth = *tried.get(&(m.pid.clone(), idx)).unwrap_or(&0);
             let mut opts = json!({});
+            let mut kind = "complete";
             for (k, v) in &tries[nth] {
-                opts[*k] = json!(v + progs[pi].offset);
+                if *k == "@submit" {
+                    kind = "submit";
+                } else {
+                    opts[*k] = json!(v + progs[pi].offset);
+                }
             }
-            ch.label(|| format!("client complete {}:{}({}) {opts}", m.pid, m.tid, m.key));
-            let r = sess.act("complete", &m.pid, &m.tid, &vars_of(&opts));
+            ch.label(|| format!("client {kind} {}:{}({}) {opts}", m.pid, m.tid, m.key));
+            let r = sess.act(kind, &m.pid, &m.tid, &vars_of(&opts));
             answers.entry(m.pid.clone()).or_default().push((idx, nth, r.is_ok()));
             tried.insert((m.pid.clone(), idx), if r.is_ok() { usize::MAX / 2 } else { nth + 1 });
         }
@@ -627,6 +641,12 @@ pub fn alphabet(in_s1: bool) -> Vec<ActD> {
         ActD::Irq { declared: false, tries: vec![vec![("x", 5)]] },
         ActD::Irq { declared: false, tries: vec![vec![("y", 6), ("__q", 7)]] },
         ActD::Irq { declared: false, tries: vec![vec![("z", 8)]] },
+        // surplus options named like the parameters some actions use for themselves
+        ActD::Irq { declared: true, tries: vec![vec![("x", 5), ("message", 9), ("ecode", 9), ("to", 9)]] },
+        ActD::Irq { declared: false, tries: vec![vec![("message", 9)]] },
+        // answered with submit instead of complete
+        ActD::Irq { declared: false, tries: vec![vec![("@submit", 0), ("x", 5)]] },
+        ActD::Irq { declared: true, tries: vec![vec![("@submit", 0), ("x", 5), ("y", 6)]] },
         ActD::MsgIf(K::X, 1),
     ];
     if in_s1 {
@@ -664,6 +684,8 @@ pub fn core_alphabet(in_s1: bool) -> Vec<ActD> {
         ActD::Irq { declared: true, tries: vec![vec![("x", 5), ("y", 6), ("__q", 7)]] },
         ActD::Irq { declared: true, tries: vec![vec![("y", 6)], vec![("x", 5)]] },
         ActD::Irq { declared: false, tries: vec![vec![("y", 6), ("__q", 7)]] },
+        ActD::Irq { declared: true, tries: vec![vec![("x", 5), ("message", 9), ("ecode", 9), ("to", 9)]] },
+        ActD::Irq { declared: false, tries: vec![vec![("@submit", 0), ("x", 5)]] },
         ActD::MsgIf(K::X, 1),
     ];
     if in_s1 {
@@ -696,7 +718,24 @@ pub fn programs(total: usize, core: bool) -> Vec<Prog> {
     v
 }
 
+fn is_submit(a: &ActD) -> bool {
+    matches!(a, ActD::Irq { tries, .. } if tries.iter().any(|t| t.iter().any(|(k, _)| *k == "@submit")))
+}
+
+/// A submitted act ends its step at once (the acts after it in the same step never run; whether
+/// that is intended is not the subject of this property), so an interrupt answered with submit is
+/// only placed last in the first act list.
+fn well_placed(p: &Prog) -> bool {
+    !p.s2.iter().any(is_submit) && !p.s1.iter().rev().skip(1).any(is_submit)
+}
+
 fn selected(tier: Tier) -> Vec<Prog> {
+    let mut v = selected_all(tier);
+    v.retain(well_placed);
+    v
+}
+
+fn selected_all(tier: Tier) -> Vec<Prog> {
     let mut v = vec![];
     // full alphabet up to 2 / 4 acts, the core alphabet one act longer in the quick tier
     let max = tier.pick(3, 4);
@@ -738,7 +777,7 @@ fn pairs(tier: Tier) -> Vec<(Prog, Prog)> {
     let n = tier.pick(1, 2);
     for t in 1..=n {
         for p in programs(t, false) {
-            if p.s1.len() > 1 || p.s2.len() > 1 {
+            if p.s1.len() > 1 || p.s2.len() > 1 || !well_placed(&p) {
                 continue;
             }
             let mut p = p;
